@@ -1109,6 +1109,8 @@ def _judge(ctx, key, where, what, level, vocab, loops_restructured, lhs, rhs):
     measure.sides = {}
 
     (at1, c1), (at2, c2) = measure(d1), measure(d2)
+    sides = measure.sides.get(id(d1 if c1 <= c2 else d2), (0, 0))
+    one_sided = min(sides) == 0 and max(sides) > 0  # one form occurs unchanged inside the other: something was added / dropped
     import os
 
     if os.environ.get("LCMSA_DEBUG_JUDGE"):
@@ -1130,8 +1132,9 @@ def _judge(ctx, key, where, what, level, vocab, loops_restructured, lhs, rhs):
         uniq = list(dict.fromkeys(x.lstrip("~") for d in atoms for x in d))
         ctx.ob(key, False, where, f"{what}: same structure as the reference form but {len(uniq)} atomic deviation(s): " + "; ".join(uniq[:4]),
                lhs=_short(a_), rhs=_short(r_))
-    elif cost <= LOCAL_EDIT and not loops_restructured:
-        ctx.ob(key, False, where, f"{what}: deviates locally from the reference form ({cost} unshared nodes; first at {first})",
+    elif (cost <= LOCAL_EDIT or (one_sided and cost <= 2 * LOCAL_EDIT)) and not loops_restructured:
+        how = ("an operation was " + ("added to" if sides[0] else "dropped from") + " the reviewed computation; ") if one_sided else ""
+        ctx.ob(key, False, where, f"{what}: deviates locally from the reference form ({how}{cost} unshared nodes; first at {first})",
                lhs=_short(a_), rhs=_short(r_))
     else:
         ctx.undecided(key, f"{what}: written differently from the reference form ({cost} unshared nodes{', loops restructured' if loops_restructured else ''}; "
@@ -1322,6 +1325,12 @@ def atomic_diffs(a, b, path="", out=None):
                     return out
                 out.append(f"{path}: the value {word} {x[1][1]}(...)")
                 return out
+        # a comparison operator against a library predicate over the same operands: a == b vs isclose(a, b)
+        for x, y in ((a, b), (b, a)):
+            if x[0] == "op" and len(x) == 5 and y[0] == "cmp" and len(y[1]) == 1 and len(y[2]) == 2 and not x[3] and not x[4] \
+                    and sorted(map(repr, (v for _k, v in x[2]))) == sorted(map(repr, y[2])):
+                out.append(f"{path}: {x[1]}(...) {'instead of' if x is a else 'replaced by'} the comparison {y[1][0]}")
+                return out
         # `x | y` (normal form: ordered merge) against `x & y` (normal form: commutative and)
         if {a[0], b[0]} == {"bar", "op"} and sorted(map(repr, _merge_leaves(a))) == sorted(map(repr, _merge_leaves(b))) \
                 and len(_merge_leaves(a)) > 1:
@@ -1346,6 +1355,16 @@ def atomic_diffs(a, b, path="", out=None):
         if a[0] in ("if", "ifnone") and len(a) == 4 and a[1] == b[1] and a[2] == b[3] and a[3] == b[2]:
             out.append(f"{path}: the two branches of a condition are swapped (condition negated)")
             return out
+        if a[0] == "op" and b[0] == "op" and len(a) == 3 and len(b) == 3 and a[1] == b[1] and len(a[2]) == len(b[2]):
+            # commutative n-ary form (operands sorted): pair equal operands first, the rest in order
+            ra = [x for x in a[2] if x not in b[2]]
+            rb = [y for y in b[2] if y not in a[2]]
+            if len(ra) == len(rb):
+                for x, y in zip(ra, rb, strict=True):
+                    if atomic_diffs(x, y, f"{path}.{a[1]}", out) is None:
+                        return None
+                return out
+            return None
         if a[0] == "op" and len(a) == 5 and len(b) == 5:
             if a[1] != b[1]:
                 out.append(f"{path}: operation {a[1]} instead of {b[1]}")
